@@ -199,7 +199,7 @@ class DictArray(StorageBase):
         """Load the dict storage from disk."""
         if self.folder is None:  # pragma: no cover
             return
-        if not self.folder.exists():
+        if not self._path().is_file():  # nothing was persisted (yet)
             return
         self._dict = load(self._path())
 
